@@ -2,4 +2,5 @@ INIT Init
 NEXT Next
 INVARIANT SwuInv
 INVARIANT ParamInv
+INVARIANT IsoInv
 CHECK_DEADLOCK FALSE
